@@ -454,7 +454,7 @@ Definition insert_set (l r : node) : outcome mres :=
   end.
 
 (* _insert_scalar at the document root (the non-root `else` branch is
-   Processor.set_value and belongs to C11) *)
+   Processor._apply_change on the target and belongs to C11) *)
 Definition insert_scalar_root (l r : node) : outcome mres :=
   match l with
   | NSeq li lels => Ok (same (NSeq li (lels ++ [r])))
